@@ -43,12 +43,12 @@ pub fn case(ctx: &mut Ctx, idx: u64) {
             ..Mix::default()
         }
     };
-    let Some((mc, map)) = gen::gen_domain_map(&mut rng, &mx, Domain::Realistic) else {
+    let Some((mc, map)) = gen::gen_domain_map_ext(&mut rng, &mx, Domain::Realistic, 0, 10) else {
         ctx.count("skipped_no_domain_map");
         return;
     };
     let mode = gen::pick_mode(&mut rng, &map);
-    let spec: SetSpec = c02::settings(&mut rng, mode);
+    let spec: SetSpec = c02::settings(&mut rng, mode, &map);
     let mname = mode_name(mode);
     let d = spec.to_difficulty(mode);
     let pred = c02::predicate(&map, mode, &spec);
